@@ -101,6 +101,19 @@ func hostileSeeds() []hSeed {
 		add("jls12-rgb", "jpeg", ".80", mustEnc(jlsl.Encode(img(6, 5, 3, 12, "noise"), 6, 5, 3, 12)), 6, 5, 16, 12, 3)
 		add("jlsnear8", "jpeg", ".81", mustEnc(jlsn.Encode(img(8, 8, 1, 8, "smooth"), 8, 8, 1, 8, 2)), 8, 8, 8, 8, 1)
 		add("jlsnear16-rgb", "jpeg", ".81", mustEnc(jlsn.Encode(img(5, 6, 3, 16, "noise"), 5, 6, 3, 16, 3)), 5, 6, 16, 16, 3)
+		// JPEG-LS preset parameters (LSE id 1 restating the defaults) ahead of the scan header:
+		// the library's encoders never write the segment, its decoders parse it
+		withLSE := func(st []byte, maxval, t1, t2, t3 int) []byte {
+			for i := 2; i+1 < len(st); i++ {
+				if st[i] == 0xFF && st[i+1] == 0xDA {
+					lse := []byte{0xFF, 0xF8, 0, 13, 1, byte(maxval >> 8), byte(maxval), byte(t1 >> 8), byte(t1), byte(t2 >> 8), byte(t2), byte(t3 >> 8), byte(t3), 0, 64}
+					return append(append(append([]byte(nil), st[:i]...), lse...), st[i:]...)
+				}
+			}
+			return st
+		}
+		add("jls8-lse", "jpeg", ".80", withLSE(mustEnc(jlsl.Encode(img(9, 6, 1, 8, "runs"), 9, 6, 1, 8)), 255, 3, 7, 21), 9, 6, 8, 8, 1)
+		add("jlsnear16-lse", "jpeg", ".81", withLSE(mustEnc(jlsn.Encode(img(5, 6, 3, 16, "noise"), 5, 6, 3, 16, 3)), 65535, 27, 82, 297), 5, 6, 16, 16, 3)
 		add("ref-420-dri", "jpeg", ".50", ref.BaselineEncode(img(19, 11, 3, 8, "smooth"), 19, 11, 3, ref.BaselineOptions{Quality: 70, HY: 2, VY: 2, DRI: 1, App: "jfif", Optimise: true}), 19, 11, 8, 8, 3)
 		{
 			comps := deinterleave(gen.Content(r, "noise", 5, 4, 3, 10, 0), 3)
@@ -139,6 +152,57 @@ func hostileSeeds() []hSeed {
 		j2k("j2k-roi", ".90", 12, 12, 1, 8, func(p *jpeg2000.EncodeParams) {
 			p.ROI = &jpeg2000.ROIParams{X0: 2, Y0: 2, Width: 5, Height: 5, Shift: 4}
 		})
+		{
+			// the decoder's private comment payloads: an inverse component transform
+			// (JP2MCT, version 1, rows, cols, flag, float32 matrix) ahead of the first tile-part
+			pr := jpeg2000.DefaultEncodeParams(7, 6, 3, 8, false)
+			pr.NumLevels, pr.EnableMCT = 1, false
+			st := mustEnc(jpeg2000.NewEncoder(pr).Encode(img(7, 6, 3, 8, "noise")))
+			if inf, _ := ref.WalkJ2K(st); inf != nil && len(inf.TileParts) > 0 {
+				pay := []byte{'J', 'P', '2', 'M', 'C', 'T', 1, 0, 3, 0, 3, 0}
+				for i := 0; i < 9; i++ {
+					v := uint32(0)
+					if i%4 == 0 {
+						v = 0x3F800000 // 1.0
+					}
+					pay = append(pay, byte(v>>24), byte(v>>16), byte(v>>8), byte(v))
+				}
+				seg := append([]byte{0xFF, 0x64, byte((len(pay) + 4) >> 8), byte(len(pay) + 4), 0, 0}, pay...)
+				o := inf.TileParts[0].Offset
+				st = append(append(append([]byte(nil), st[:o]...), seg...), st[o:]...)
+			}
+			add("j2k-com-mct", "j2k", ".90", st, 7, 6, 8, 8, 3)
+		}
+		{
+			// marker segments the library parses but its encoder never writes: COC, QCC and POC,
+			// once in the main header and once in the first tile-part header (all restating
+			// what COD/QCD already say, so the image is unchanged)
+			pr := jpeg2000.DefaultEncodeParams(10, 9, 3, 8, false)
+			pr.NumLevels, pr.NumLayers = 2, 2
+			st := mustEnc(jpeg2000.NewEncoder(pr).Encode(img(10, 9, 3, 8, "noise")))
+			if inf, _ := ref.WalkJ2K(st); inf != nil && len(inf.TileParts) > 0 && inf.COD != nil && inf.QCD != nil {
+				cd := inf.COD
+				coc := []byte{0xFF, 0x53, 0, 9, 1, 0, byte(cd.Levels), byte(cd.XCB - 2), byte(cd.YCB - 2), byte(cd.Style), byte(cd.Transform)}
+				qcc := []byte{0xFF, 0x5D, 0, 0, 2, byte(inf.QCD.Sqcd)}
+				for _, e := range inf.QCD.Eps {
+					qcc = append(qcc, byte(e<<3))
+				}
+				qcc[2], qcc[3] = byte((len(qcc)-2)>>8), byte(len(qcc)-2)
+				poc := []byte{0xFF, 0x5F, 0, 9, 0, 0, 0, byte(cd.Layers), byte(cd.Levels + 1), 3, byte(cd.Prog)}
+				extra := append(append(append([]byte(nil), coc...), qcc...), poc...)
+				o := inf.TileParts[0].Offset
+				main := append(append(append([]byte(nil), st[:o]...), extra...), st[o:]...)
+				add("j2k-coc-qcc-poc", "j2k", ".90", main, 10, 9, 8, 8, 3)
+				tp := inf.TileParts[0]
+				th := append([]byte(nil), st[:tp.Offset+12]...)
+				if tp.Psot != 0 {
+					ps := tp.Psot + len(extra)
+					th[tp.Offset+6], th[tp.Offset+7], th[tp.Offset+8], th[tp.Offset+9] = byte(ps>>24), byte(ps>>16), byte(ps>>8), byte(ps)
+				}
+				th = append(append(th, extra...), st[tp.Offset+12:]...)
+				add("j2k-tilehdr-markers", "j2k", ".90", th, 10, 9, 8, 8, 3)
+			}
+		}
 		j2k("ht-g16", ".201", 9, 9, 1, 16, func(p *jpeg2000.EncodeParams) {
 			p.HTJ2KMode, p.ProgressionOrder = true, 2
 			p.BlockEncoderFactory = func(w, h int) jpeg2000.BlockEncoder { return htj2k.NewHTEncoder(w, h) }
@@ -990,7 +1054,7 @@ func j2kAmplify(src []byte, prog int) [][]byte {
 				if levels >= 0 {
 					lv = levels
 				}
-				cod := []byte{0xFF, 0x52, 0, 0, byte(c.Scod &^ 1), byte(prog), byte(layers >> 8), byte(layers), byte(c.MCT), byte(lv), byte(c.XCB), byte(c.YCB), byte(c.Style), byte(c.Transform)}
+				cod := []byte{0xFF, 0x52, 0, 0, byte(c.Scod &^ 1), byte(prog), byte(layers >> 8), byte(layers), byte(c.MCT), byte(lv), byte(c.XCB - 2), byte(c.YCB - 2), byte(c.Style), byte(c.Transform)}
 				if pv >= 2 { // the smallest code-blocks, so that every small precinct holds one
 					cod[10], cod[11] = 0, 0
 				}
@@ -1067,3 +1131,25 @@ func TimeEntries() {
 		}
 	}
 }
+
+// SeedReport prints the behaviour signature of every entry point on every unmodified seed
+// (development aid: a seed that its own family's decoder rejects explores little).
+func SeedReport() {
+	for _, s := range hostileSeeds() {
+		fi := FrameInfo(s.W, s.H, s.BA, s.BS, s.SPP, s.PR, 0)
+		for _, e := range hEntries[s.Family] {
+			var sg string
+			func() {
+				defer func() {
+					if r := recover(); r != nil {
+						sg = fmt.Sprint("PANIC ", r)
+					}
+				}()
+				sg = e.Run(s.Data, fi)
+			}()
+			fmt.Printf("%-22s %-28s len=%-6d %s\n", s.Name, e.Name, len(s.Data), sg)
+		}
+	}
+}
+
+func DumpSeed(name, path string) { os.WriteFile(path, seedByName(name).Data, 0o644) }
